@@ -24,7 +24,7 @@ RULE = ("sweep: each of the 128 ASCII code points and 24 chosen non-ASCII scalar
         "into a writer that fails at its first write or after 1..400 accepted bytes, then the observed "
         "record into a good writer (each encode call is one record, one line, whatever failed before); a length "
         "sweep (messages of n plain bytes followed by an escaped character, plain messages and two-piece messages "
-        "for n = 0..1059 [quick: the ~80 lengths around every multiple of 128]) so that every byte offset of the "
+        "for n = 0..2299 (thorough 3399) [quick: the ~105 lengths around every multiple of 128]) so that every byte offset of the "
         "line is the end of some writer call. "
         "non-trivial = some string contains a byte that must be escaped "
         "(quote, backslash, < 0x20); distinct = distinct case line")
@@ -155,7 +155,7 @@ def cases(rng, tier):
     # message of every length; two Display pieces meeting at every offset): internal buffers with a
     # power-of-two size (128, 256, 512, 1024) must not show
     step = 1 if thorough else 1
-    for n in range(0, 1060, step):
+    for n in range(0, 3400 if thorough else 2300, step):
         if not thorough and not (40 <= n % 128 <= 127 or n % 128 <= 8):
             continue          # quick: the 70+9 lengths around each multiple of 128 (prefix is 60-85 bytes)
         out.append(mk(3, ["a" * n + '"' + "b" * 20]))
@@ -163,6 +163,29 @@ def cases(rng, tier):
             out.append(mk(2, ["c" * n]))
             out.append(mk(4, ["d" * n, "\\" + "e" * 9], thread="thr"))
     return out
+
+
+def run_impl(ctx, cases_, lines):
+    """three harness processes under different locales (LC_ALL=C / LANG=ja_JP.eucJP + LC_CTYPE=de_DE.ISO-8859-1 /
+    LC_ALL=en_US.UTF-8): the JSON line does not depend on the locale"""
+    from concurrent.futures import ThreadPoolExecutor
+    vc = ctx["vc"]
+    envs = []
+    for extra in ({"LC_ALL": "C"}, {"LANG": "ja_JP.eucJP", "LC_CTYPE": "de_DE.ISO-8859-1"}, {"LC_ALL": "en_US.UTF-8"}):
+        e = dict(vc.ENV)
+        for k in ("LC_ALL", "LC_CTYPE", "LANG"):
+            e.pop(k, None)
+        e.update(extra)
+        envs.append(e)
+    parts = [list(range(k, len(lines), 3)) for k in range(3)]
+    res = [None] * len(lines)
+    with ThreadPoolExecutor(max_workers=3) as ex:
+        outs = list(ex.map(lambda k: vc.run_lines([ctx["vh"]], [lines[i] for i in parts[k]], timeout_per_batch=900,
+                                                  env=envs[k]), range(3)))
+    for k in range(3):
+        for i, g in zip(parts[k], outs[k]):
+            res[i] = g
+    return res
 
 
 def _b(x):
